@@ -861,7 +861,7 @@ class C05(Profile):
                 if not t.ok:
                     why = "time raises %s" % t.exc
                 else:
-                    w2 = values_close(t.value, exp, 1e-12)
+                    w2 = values_close(t.value, exp, 0.0)      # exactly dt*[0..npts-1]; the unchanged code computes just that
                     if w2:
                         why = "time != dt*[0..npts-1]: %s" % w2
             if why:
@@ -1190,7 +1190,7 @@ class Gen(object):
         return {"arr": nd(gen_record(rng, gen_size(rng, self.cfg)))}
 
     def _dt(self):
-        return self.rng.choice([0.001, 0.005, 0.01, 0.01, 0.02, 0.05])
+        return self.rng.choice([0.001, 0.005, 0.01, 0.01, 0.02, 0.05, 0.03, 0.3, 0.06, 0.007])
 
     def g_new(self, world, cls=None):
         rng = self.rng
@@ -1199,6 +1199,15 @@ class Gen(object):
         cls = cls or rng.choice(["AccSignal", "AccSignal", "Signal"])
         op = {"op": "new", "p": name, "cls": cls, "src": self._src(world), "dt": self._dt(), "kw": {}}
         objs = sorted(world.objs)
+        if objs and rng.random() < 0.15:
+            # as long as an existing signal, with that signal's time step rounded to 9 decimals (a step that came out of
+            # a division, like 0.3/3, and the literal 0.1 are different steps)
+            q = rng.choice(objs)
+            n = len(world.objs[q].values)
+            if 1 <= n <= 2048:
+                op["src"] = {"arr": nd(gen_record(rng, n))}
+                op["dt"] = round(float(world.objs[q].dt), 9)
+                return op
         if objs and rng.random() < 0.2:
             # an all-zero accumulator shaped like an existing signal (to be filled with add_signal)
             q = rng.choice(objs)
@@ -1520,7 +1529,8 @@ class Gen(object):
 
     def target_dt(self, obj=False):
         dt = self.cur_dt
-        return round(dt * self.rng.choice([0.25, 0.5, 1.0, 2.0, 3.0]), 6)
+        r = self.rng.choice([0.25, 0.5, 1.0, 2.0, 3.0, 0.33334, 0.2001, 0.14286])
+        return dt * r if r in (0.25, 0.5, 1.0, 2.0, 3.0) and self.rng.random() < 0.5 else round(dt * r, 6)
 
     def obj(self, acc=False, max_n=None):
         if self.cur_obj is None:
